@@ -433,6 +433,34 @@ var mapScenarios = []mapScenario{
 		x.do(oDelete, 1, 0)
 		x.do(oLoad, 2, 0)
 	}},
+	{"remover parked after marking (LoadAndDelete), its predecessor is removed meanwhile, the key is stored again", func(x *mapScript, src *lockedSrc) {
+		x.do(oStore, 1, 10)
+		x.do(oStore, 2, 20)
+		x.do(oStore, 3, 30)
+		rel := x.park(1, oLoadAndDelete, 2, 0) // searched with key 1 as predecessor
+		x.do(oDelete, 1, 0)
+		x.do(oLoad, 1, 0)
+		release(rel)
+		x.e.wg.Wait()
+		x.do(oRange, 0, 0)
+		x.do(oLoad, 2, 0)
+		x.do(oStore, 2, 21) // must not meet a marked node that stayed linked
+		x.do(oLoad, 2, 0)
+		x.do(oLoadOrStore, 1, 11)
+		x.do(oRange, 0, 0)
+	}},
+	{"remover parked after marking (Delete), its predecessor is removed meanwhile, the key is stored again", func(x *mapScript, src *lockedSrc) {
+		x.do(oStore, 1, 10)
+		x.do(oStore, 2, 20)
+		rel := x.park(1, oDelete, 2, 0)
+		x.do(oLoadAndDelete, 1, 0)
+		release(rel)
+		x.e.wg.Wait()
+		x.do(oLoadOrStore, 2, 21)
+		x.do(oLazy, 1, 12)
+		x.do(oLoad, 2, 0)
+		x.do(oRange, 0, 0)
+	}},
 	{"adder parked published, length counter not yet incremented (Store into the empty map)", func(x *mapScript, src *lockedSrc) {
 		rel := x.park(7, oStore, 1, 10)
 		x.do(oLoadOrStore, 1, 11) // finds the published node
@@ -614,6 +642,21 @@ var setScenarios = []setScenario{
 		x.do(sRemoveB, 3)
 		x.do(sRemoveB, 1)
 		x.do(sContainsB, 2)
+	}},
+	{"remover parked after marking, its predecessor is removed meanwhile, the member is added again", func(x *setScript, src *lockedSrc) {
+		x.do(sAddB, 1)
+		x.do(sAddB, 2)
+		x.do(sAddB, 3)
+		rel := x.park(1, sRemoveB, 2)
+		x.do(sRemoveB, 1)
+		x.do(sContainsB, 1)
+		release(rel)
+		x.e.wg.Wait()
+		x.do(sRange, 0)
+		x.do(sAddB, 2)
+		x.do(sContainsB, 2)
+		x.do(sAddB, 1)
+		x.do(sRange, 0)
 	}},
 	{"adder parked published, length counter not yet incremented (AddB into the empty set)", func(x *setScript, src *lockedSrc) {
 		rel := x.park(7, sAddB, 1)
